@@ -227,7 +227,7 @@ theorem or_true_of_right {a b : Bool} (h : b = true) : (a || b) = true := by sim
 
 mutual
 /-- soundness of `convBV` with the proved operations discharged -/
-theorem convBV_good' (anno : Nat → SI) (env : Nat → Nat)
+theorem convBV_rest_good (anno : Nat → SI) (env : Nat → Nat)
     (hctx : ∀ i, (anno i).WF ∧ (anno i).mem (env i)) :
     ∀ (e : BV) (o : Orders) (av : AV) (o' : Orders), (usesRestBV e = true → OpsRest) → DefBV env e → WTBV anno env e →
       convBV anno e o = .ok (av, o') → GoodBV env e av
@@ -267,8 +267,8 @@ theorem convBV_good' (anno : Nat → SI) (env : Nat → Nat)
     cases this
     have Ra : usesRestBV a = true → OpsRest := fun hh => R (by simp [usesRestBV, hh])
     have Rb : usesRestBV b = true → OpsRest := fun hh => R (by simp [usesRestBV, hh])
-    obtain ⟨⟨wa, ba⟩, ma⟩ := convBV_good' anno env hctx a o p1.1 p1.2 Ra hdef.1 hwt.1 h1
-    obtain ⟨⟨wb, bb⟩, mb⟩ := convBV_good' anno env hctx b p1.2 p2.1 p2.2 Rb hdef.2.1 hwt.2.1 h2
+    obtain ⟨⟨wa, ba⟩, ma⟩ := convBV_rest_good anno env hctx a o p1.1 p1.2 Ra hdef.1 hwt.1 h1
+    obtain ⟨⟨wb, bb⟩, mb⟩ := convBV_rest_good anno env hctx b p1.2 p2.1 p2.2 Rb hdef.2.1 hwt.2.1 h2
     have hbits : p1.1.si.bits = p2.1.si.bits := by rw [ba, bb]; exact hwt.2.2
     obtain ⟨x0, hx0⟩ := defBV_some env a hdef.1
     obtain ⟨y0, hy0⟩ := defBV_some env b hdef.2.1
@@ -292,7 +292,7 @@ theorem convBV_good' (anno : Nat → SI) (env : Nat → Nat)
     have := pure_ok _ _ h
     cases this
     have Ra : usesRestBV a = true → OpsRest := fun hh => R (by simp [usesRestBV, hh])
-    obtain ⟨⟨wa, ba⟩, ma⟩ := convBV_good' anno env hctx a o p1.1 p1.2 Ra hdef hwt h1
+    obtain ⟨⟨wa, ba⟩, ma⟩ := convBV_rest_good anno env hctx a o p1.1 p1.2 Ra hdef hwt h1
     obtain ⟨wr, br⟩ := neg_WF p1.1.si wa
     refine ⟨⟨wr, by rw [br, ba]; rfl⟩, ?_⟩
     intro v hv
@@ -311,7 +311,7 @@ theorem convBV_good' (anno : Nat → SI) (env : Nat → Nat)
     have := pure_ok _ _ h
     cases this
     have Ra : usesRestBV a = true → OpsRest := fun hh => R (by simp [usesRestBV, hh])
-    obtain ⟨⟨wa, ba⟩, ma⟩ := convBV_good' anno env hctx a o p1.1 p1.2 Ra hdef hwt h1
+    obtain ⟨⟨wa, ba⟩, ma⟩ := convBV_rest_good anno env hctx a o p1.1 p1.2 Ra hdef hwt h1
     obtain ⟨x0, hx0⟩ := defBV_some env a hdef
     obtain ⟨⟨wr, br⟩, mr⟩ := not_sound p1.1.si r wa (ma x0 hx0).1.1 h2
     refine ⟨⟨wr, by rw [br, ba]; rfl⟩, ?_⟩
@@ -331,7 +331,7 @@ theorem convBV_good' (anno : Nat → SI) (env : Nat → Nat)
     have := pure_ok _ _ h
     cases this
     have Ra : usesRestBV a = true → OpsRest := fun hh => R (by simp [usesRestBV, hh])
-    obtain ⟨⟨wa, ba⟩, ma⟩ := convBV_good' anno env hctx a o p1.1 p1.2 Ra hdef hwt h1
+    obtain ⟨⟨wa, ba⟩, ma⟩ := convBV_rest_good anno env hctx a o p1.1 p1.2 Ra hdef hwt h1
     obtain ⟨x0, hx0⟩ := defBV_some env a hdef
     obtain ⟨⟨wr, br⟩, mr⟩ := zext_sound p1.1.si r (k + p1.1.si.bits) wa (ma x0 hx0).1.1 (by omega) h2
     refine ⟨⟨wr, by rw [br, ba]; rfl⟩, ?_⟩
@@ -351,7 +351,7 @@ theorem convBV_good' (anno : Nat → SI) (env : Nat → Nat)
     have := pure_ok _ _ h
     cases this
     have H := R (by simp [usesRestBV])
-    obtain ⟨⟨wa, ba⟩, ma⟩ := convBV_good' anno env hctx a o p1.1 p1.2 (fun _ => H) hdef hwt h1
+    obtain ⟨⟨wa, ba⟩, ma⟩ := convBV_rest_good anno env hctx a o p1.1 p1.2 (fun _ => H) hdef hwt h1
     obtain ⟨⟨wr, br⟩, mr⟩ := H.sext p1.1.si r k wa h2
     refine ⟨⟨wr, by rw [br, ba]; rfl⟩, ?_⟩
     intro v hv
@@ -375,7 +375,7 @@ theorem convBV_good' (anno : Nat → SI) (env : Nat → Nat)
     have := pure_ok _ _ h
     cases this
     have Ra : usesRestBV a = true → OpsRest := fun hh => R (by simp [usesRestBV, hh])
-    obtain ⟨⟨wa, ba⟩, ma⟩ := convBV_good' anno env hctx a o p1.1 p1.2 Ra hdef hwt.1 h1
+    obtain ⟨⟨wa, ba⟩, ma⟩ := convBV_rest_good anno env hctx a o p1.1 p1.2 Ra hdef hwt.1 h1
     obtain ⟨x0, hx0⟩ := defBV_some env a hdef
     obtain ⟨⟨wr, br⟩, mr⟩ := extract_sound p1.1.si r hi lo wa (ma x0 hx0).1.1 hwt.2.1 (by rw [ba]; exact hwt.2.2) h2
     refine ⟨⟨wr, by rw [br]; rfl⟩, ?_⟩
@@ -406,8 +406,8 @@ theorem convBV_good' (anno : Nat → SI) (env : Nat → Nat)
     have := pure_ok _ _ h
     cases this
     have H := R (by simp [usesRestBV])
-    obtain ⟨⟨wa, ba⟩, ma⟩ := convBV_good' anno env hctx a o p1.1 p1.2 (fun _ => H) hdef.1 hwt.1 h1
-    obtain ⟨⟨wb, bb⟩, mb⟩ := convBV_good' anno env hctx b p1.2 p2.1 p2.2 (fun _ => H) hdef.2 hwt.2 h2
+    obtain ⟨⟨wa, ba⟩, ma⟩ := convBV_rest_good anno env hctx a o p1.1 p1.2 (fun _ => H) hdef.1 hwt.1 h1
+    obtain ⟨⟨wb, bb⟩, mb⟩ := convBV_rest_good anno env hctx b p1.2 p2.1 p2.2 (fun _ => H) hdef.2 hwt.2 h2
     obtain ⟨⟨wr, br⟩, mr⟩ := H.concat p1.1.si p2.1.si r wa wb h3
     refine ⟨⟨wr, by rw [br, ba, bb]; rfl⟩, ?_⟩
     intro v hv
@@ -427,9 +427,9 @@ theorem convBV_good' (anno : Nat → SI) (env : Nat → Nat)
     have Rc : usesRestB c = true → OpsRest := fun hh => R (by simp [usesRestBV, hh])
     have Ra : usesRestBV a = true → OpsRest := fun hh => R (by simp [usesRestBV, hh])
     have Rb : usesRestBV b = true → OpsRest := fun hh => R (by simp [usesRestBV, hh])
-    have gc := convB_good' anno env hctx c o pc.1 pc.2 Rc hdef.1 hwt.1 hc
-    obtain ⟨⟨wa, ba⟩, ma⟩ := convBV_good' anno env hctx a pc.2 p1.1 p1.2 Ra hdef.2.1 hwt.2.1 h1
-    obtain ⟨⟨wb, bb⟩, mb⟩ := convBV_good' anno env hctx b p1.2 p2.1 p2.2 Rb hdef.2.2 hwt.2.2.1 h2
+    have gc := convB_rest_good anno env hctx c o pc.1 pc.2 Rc hdef.1 hwt.1 hc
+    obtain ⟨⟨wa, ba⟩, ma⟩ := convBV_rest_good anno env hctx a pc.2 p1.1 p1.2 Ra hdef.2.1 hwt.2.1 h1
+    obtain ⟨⟨wb, bb⟩, mb⟩ := convBV_rest_good anno env hctx b p1.2 p2.1 p2.2 Rb hdef.2.2 hwt.2.2.1 h2
     have hbits : p1.1.si.bits = p2.1.si.bits := by rw [ba, bb]; exact hwt.2.2.2
     unfold iteBV at h3
     by_cases hT : (!pc.1.hasTrue) = true
@@ -471,7 +471,7 @@ theorem convBV_good' (anno : Nat → SI) (env : Nat → Nat)
         | true => simp only [if_true] at hv; exact mr v (Or.inl (ma v hv).1)
         | false => simp only [Bool.false_eq_true, if_false] at hv; exact mr v (Or.inr (mb v hv).1)
 /-- … and of `convB`. -/
-theorem convB_good' (anno : Nat → SI) (env : Nat → Nat)
+theorem convB_rest_good (anno : Nat → SI) (env : Nat → Nat)
     (hctx : ∀ i, (anno i).WF ∧ (anno i).mem (env i)) :
     ∀ (c : BExp) (o : Orders) (br : BoolRes) (o' : Orders), (usesRestB c = true → OpsRest) → DefB env c → WTB anno env c →
       convB anno c o = .ok (br, o') → GoodB env c br
@@ -492,8 +492,8 @@ theorem convB_good' (anno : Nat → SI) (env : Nat → Nat)
     cases this
     have Ra : usesRestBV a = true → OpsRest := fun hh => R (by simp [usesRestB, hh])
     have Rb : usesRestBV b = true → OpsRest := fun hh => R (by simp [usesRestB, hh])
-    obtain ⟨⟨wa, ba⟩, ma⟩ := convBV_good' anno env hctx a o p1.1 p1.2 Ra hdef.1 hwt.1 h1
-    obtain ⟨⟨wb, bb⟩, mb⟩ := convBV_good' anno env hctx b p1.2 p2.1 p2.2 Rb hdef.2 hwt.2.1 h2
+    obtain ⟨⟨wa, ba⟩, ma⟩ := convBV_rest_good anno env hctx a o p1.1 p1.2 Ra hdef.1 hwt.1 h1
+    obtain ⟨⟨wb, bb⟩, mb⟩ := convBV_rest_good anno env hctx b p1.2 p2.1 p2.2 Rb hdef.2 hwt.2.1 h2
     have hbits : p1.1.si.bits = p2.1.si.bits := by rw [ba, bb]; exact hwt.2.2
     intro bv hbv
     simp only [evalB] at hbv
@@ -569,7 +569,7 @@ theorem convB_good' (anno : Nat → SI) (env : Nat → Nat)
     have := pure_ok _ _ h
     cases this
     have Rc : usesRestB c = true → OpsRest := fun hh => R (by simp [usesRestB, hh])
-    have gc := convB_good' anno env hctx c o p.1 p.2 Rc hdef hwt h1
+    have gc := convB_rest_good anno env hctx c o p.1 p.2 Rc hdef hwt h1
     intro b hb
     simp only [evalB] at hb
     obtain ⟨b0, hb0, hb⟩ := obind_some _ _ _ hb
@@ -583,8 +583,8 @@ theorem convB_good' (anno : Nat → SI) (env : Nat → Nat)
     cases this
     have Rc : usesRestB c = true → OpsRest := fun hh => R (by simp [usesRestB, hh])
     have Rd : usesRestB d = true → OpsRest := fun hh => R (by simp [usesRestB, hh])
-    have gc := convB_good' anno env hctx c o p.1 p.2 Rc hdef.1 hwt.1 h1
-    have gd := convB_good' anno env hctx d p.2 q.1 q.2 Rd hdef.2 hwt.2 h2
+    have gc := convB_rest_good anno env hctx c o p.1 p.2 Rc hdef.1 hwt.1 h1
+    have gd := convB_rest_good anno env hctx d p.2 q.1 q.2 Rd hdef.2 hwt.2 h2
     intro b hb
     simp only [evalB] at hb
     obtain ⟨b0, hb0, hb⟩ := obind_some _ _ _ hb
@@ -599,8 +599,8 @@ theorem convB_good' (anno : Nat → SI) (env : Nat → Nat)
     cases this
     have Rc : usesRestB c = true → OpsRest := fun hh => R (by simp [usesRestB, hh])
     have Rd : usesRestB d = true → OpsRest := fun hh => R (by simp [usesRestB, hh])
-    have gc := convB_good' anno env hctx c o p.1 p.2 Rc hdef.1 hwt.1 h1
-    have gd := convB_good' anno env hctx d p.2 q.1 q.2 Rd hdef.2 hwt.2 h2
+    have gc := convB_rest_good anno env hctx c o p.1 p.2 Rc hdef.1 hwt.1 h1
+    have gd := convB_rest_good anno env hctx d p.2 q.1 q.2 Rd hdef.2 hwt.2 h2
     intro b hb
     simp only [evalB] at hb
     obtain ⟨b0, hb0, hb⟩ := obind_some _ _ _ hb
@@ -617,9 +617,9 @@ theorem convB_good' (anno : Nat → SI) (env : Nat → Nat)
     have Rc : usesRestB c = true → OpsRest := fun hh => R (by simp [usesRestB, hh])
     have Ra : usesRestB a = true → OpsRest := fun hh => R (by simp [usesRestB, hh])
     have Rb : usesRestB b = true → OpsRest := fun hh => R (by simp [usesRestB, hh])
-    have gc := convB_good' anno env hctx c o pc.1 pc.2 Rc hdef.1 hwt.1 hc
-    have ga := convB_good' anno env hctx a pc.2 p.1 p.2 Ra hdef.2.1 hwt.2.1 h1
-    have gb := convB_good' anno env hctx b p.2 q.1 q.2 Rb hdef.2.2 hwt.2.2 h2
+    have gc := convB_rest_good anno env hctx c o pc.1 pc.2 Rc hdef.1 hwt.1 hc
+    have ga := convB_rest_good anno env hctx a pc.2 p.1 p.2 Ra hdef.2.1 hwt.2.1 h1
+    have gb := convB_rest_good anno env hctx b p.2 q.1 q.2 Rb hdef.2.2 hwt.2.2 h2
     intro bv hbv
     simp only [evalB] at hbv
     obtain ⟨cv, hcv, hbv⟩ := obind_some _ _ _ hbv
